@@ -187,6 +187,8 @@ type NodeOpts struct {
 	Cache *blockchain.CacheConfig // nil => product default
 	PV    types.PrivValidator     // nil => DefaultPrivValidator(key)
 	WAL   consensus.WAL           // nil => product default (nilWAL)
+	// RootDir is the consensus config's root directory (the real WAL file lives in <RootDir>/cs.wal/wal).
+	RootDir string
 }
 
 // ArchiveCache is the "flush every block" cache configuration (config.NoPruning).
@@ -227,7 +229,9 @@ func NewNode(idx int, g *genesis.Genesis, key *ecdsa.PrivateKey, o NodeOpts) (*N
 	if err != nil {
 		return nil, fmt.Errorf("LoadStateFromDBOrGenesisDoc: %w", err)
 	}
-	cs := consensus.NewConsensusState(logger, configs.TestConsensusConfig(), state, bOper, blockExec, evPool)
+	ccfg := configs.TestConsensusConfig()
+	ccfg.RootDir = o.RootDir
+	cs := consensus.NewConsensusState(logger, ccfg, state, bOper, blockExec, evPool)
 	pv := o.PV
 	if pv == nil {
 		pv = types.NewDefaultPrivValidator(key)
